@@ -135,6 +135,57 @@ fn four_reps<S: Sc>(d: &mut Draw) -> Outcome {
     pass(if nt { "generic" } else { "degenerate" }, nt)
 }
 
+
+/// native floats: all four representations, through every way of applying them, on vectors in general position and on
+/// vectors (nearly, exactly) along the rotation axis
+fn four_reps_f64(d: &mut Draw) -> Outcome {
+    use cgmath::{Point3, Transform};
+    let u = f_unit_quat(d);
+    let q = mk_q(&u);
+    let len = d.f64_log(1e-12, 1e12);
+    let axis = fnormalize3(&[u[1], u[2], u[3]]);
+    let kind = d.int(0, 3);
+    let v: [f64; 3] = match kind {
+        0 => scale3(&axis, len * if d.bool() { 1.0 } else { -1.0 }),
+        1 => {
+            // a hair off the axis: the perpendicular part (1e-12 .. 1e-2 of the length) must still be turned
+            let g = f_unit3(d);
+            let perp = fnormalize3(&cross3(&axis, &g));
+            let eps = d.f64_log(1e-12, 1e-2);
+            let sgn = if d.bool() { 1.0 } else { -1.0 };
+            [len * (sgn * axis[0] + eps * perp[0]), len * (sgn * axis[1] + eps * perp[1]), len * (sgn * axis[2] + eps * perp[2])]
+        }
+        _ => scale3(&f_unit3(d), len),
+    };
+    d.note("unit q [w,x,y,z]", &u);
+    d.note("v", &v);
+    let cv = Vector3::from(v);
+    let pt = Point3::from_vec(cv);
+    let want = qrot(&u, &v);
+    let (m3, m4, b3) = (Matrix3::from(q), Matrix4::from(q), Basis3::from(q));
+    let vl = (v[0] * v[0] + v[1] * v[1] + v[2] * v[2]).sqrt();
+    let tol = 32.0 * f64::EPSILON * vl;
+    for (name, got) in [
+        ("quaternion-mul-f64", q * cv),
+        ("quaternion-rotate_vector-f64", q.rotate_vector(cv)),
+        ("quaternion-rotate_point-f64", q.rotate_point(pt).to_vec()),
+        ("matrix3-mul-f64", m3 * cv),
+        ("matrix3-transform_vector-f64", Transform::<Point3<f64>>::transform_vector(&m3, cv)),
+        ("matrix3-transform_point-f64", Transform::<Point3<f64>>::transform_point(&m3, pt).to_vec()),
+        ("matrix4-mul-f64", (m4 * cv.extend(0.0)).truncate()),
+        ("matrix4-transform_vector-f64", Transform::<Point3<f64>>::transform_vector(&m4, cv)),
+        ("matrix4-transform_point-f64", Transform::<Point3<f64>>::transform_point(&m4, pt).to_vec()),
+        ("basis3-rotate_vector-f64", b3.rotate_vector(cv)),
+        ("basis3-rotate_point-f64", b3.rotate_point(pt).to_vec()),
+    ] {
+        let e = ((got.x - want[0]).powi(2) + (got.y - want[1]).powi(2) + (got.z - want[2]).powi(2)).sqrt();
+        if !(e <= tol) {
+            return Outcome::Fail { sig: name, msg: format!("{} differs from the rotation of v by q by {:e} (|v| = {:e}, tolerance {:e}): {:?} vs {:?}", name, e, vl, tol, got, want) };
+        }
+    }
+    pass(["along-the-axis", "nearly-along-the-axis", "general", "general"][kind as usize], true)
+}
+
 fn back_q(d: &mut Draw) -> Outcome {
     let uq = spread_unit::<Q>(d);
     d.note("unit q [w,x,y,z]", &uq);
@@ -183,10 +234,10 @@ fn back_f64(d: &mut Draw) -> Outcome {
     let back = Quaternion::from(Matrix3::from(q));
     let dp = (back - q).magnitude();
     let dn = (back + q).magnitude();
-    ensure!(dp.min(dn) <= 1e-12, "matrix3-roundtrip-f64", "Quaternion::from(Matrix3::from(q)) = {:?}, q = {:?}, distance to +-q = {:e} (branch {})", back, q, dp.min(dn), cls);
+    ensure!(dp.min(dn) <= 2e-14, "matrix3-roundtrip-f64", "Quaternion::from(Matrix3::from(q)) = {:?}, q = {:?}, distance to +-q = {:e} (branch {})", back, q, dp.min(dn), cls);
     let back = Quaternion::from(Basis3::from(q));
     let d2 = (back - q).magnitude().min((back + q).magnitude());
-    ensure!(d2 <= 1e-12, "basis3-roundtrip-f64", "Quaternion::from(Basis3::from(q)) distance to +-q = {:e}", d2);
+    ensure!(d2 <= 2e-14, "basis3-roundtrip-f64", "Quaternion::from(Basis3::from(q)) distance to +-q = {:e}", d2);
     // four representations agree on a vector (f64, tolerance)
     let v = Vector3::new(d.f64_in(-10.0, 10.0), d.f64_in(-10.0, 10.0), d.f64_in(-10.0, 10.0));
     let want = qrot(&u, &v3(v));
@@ -217,6 +268,7 @@ pub fn property() -> Property {
     }
     add!("four_reps-Q", "Q", four_reps::<Q>, 4000, 300_000, 96, &[("generic", 200)]);
     add!("four_reps-Fp", "Fp", four_reps::<Fp>, 4000, 300_000, 96, &[("generic", 200)]);
+    add!("four_reps-f64", "f64", four_reps_f64, 8000, 400_000, 48, &[("along-the-axis", 100), ("nearly-along-the-axis", 100), ("general", 200)]);
     add!("back_conversion-Q", "Q", back_q, 8000, 400_000, 16, BR);
     add!("back_conversion-f64", "f64", back_f64, 8000, 400_000, 64, BRF);
     Property {
